@@ -147,6 +147,9 @@ struct Program {
 
 /// Declaration / statement forms a literal can be written in (wave 6): `@T` = the scalar type the literal's suffix
 /// names, `@V` = its 2-vector, `@L` = the literal.  (name, integer literals only, source, text in front of the printed literal)
+/// Tried and not applicable: default template arguments (`default template arguments are not supported on functions`, struct
+/// templates are `UnimplementedStructTemplate` in both generators), enum-typed template arguments (`(E)7` is not a constant
+/// expression), bit-field widths (do not parse).
 pub const TEMPLATES: &[(&str, bool, &str, &str)] = &[
     ("ret", false, "@T rf_zq() { return @L; }\n", "    return "),
     ("callarg", false, "void g_zq(@T a_zq) {}\nvoid f_zq() { g_zq(@L); }\n", "    g_zq("),
@@ -174,7 +177,7 @@ pub const TEMPLATES: &[(&str, bool, &str, &str)] = &[
     ("parr", true, "void f_zq(float a_zq[@L]) {}\n", " a_zq["),
     ("arr2", true, "struct S_zq { float a_zq[2][@L]; };\n", " a_zq[2]["),
     ("index", true, "void f_zq(float a_zq[64]) { a_zq[@L]; }\n", "    a_zq["),
-    ("pattr", true, "[numthreads(@L, 1, 1)]\nvoid cs_zq() {}\nPipeline P_zq { ComputeShader = cs_zq; }\n", "numthreads("),
+    ("pattr", true, "[numthreads(@L, 1, 1)]\nvoid cs_zq() {}\nPipeline P_zq { ComputeShader = cs_zq; }\n", "numthreads(|per_threadgroup("),
     ("pgvar", false, "static @T g_zq = @L;\n[numthreads(8, 1, 1)]\nvoid cs_zq() { g_zq; }\nPipeline P_zq { ComputeShader = cs_zq; }\n", " g_zq = "),
     ("plocal", false, "[numthreads(8, 1, 1)]\nvoid cs_zq() { @T v_zq = @L; }\nPipeline P_zq { ComputeShader = cs_zq; }\n", " v_zq = "),
     ("retneg", false, "@T rf_zq() { return -@L; }\n", "    return "),
@@ -182,6 +185,14 @@ pub const TEMPLATES: &[(&str, bool, &str, &str)] = &[
     ("arrinitneg", false, "static const @T a_zq[2] = { -@L, -@L };\n", " a_zq[2] = { "),
     ("callargneg", false, "void g_zq(@T a_zq) {}\nvoid f_zq() { g_zq(-@L); }\n", "    g_zq("),
     ("caseneg", true, "void f_zq(int x_zq) { switch (x_zq) { case -@L: break; default: break; } }\n", "        case "),
+    ("tdarr", true, "typedef float A_zq[@L];\nstruct S_zq { A_zq m_zq; };\n", " m_zq["),
+    ("gsarr", true, "groupshared float a_zq[@L];\nvoid f_zq() { a_zq[0]; }\n", "(&a_zq)[|float a_zq["),
+    ("ifc", false, "void f_zq() { if (@L) {} }\n", "    if ("),
+    ("whilec", false, "void f_zq() { while (@L) {} }\n", "    while ("),
+    ("forstep", false, "void f_zq(@T x_zq) { for (; x_zq < @L; x_zq += @L) {} }\n", " x_zq < "),
+    ("plus", false, "void f_zq() { +@L; }\n", "    +"),
+    ("comma", false, "void f_zq(@T x_zq) { (x_zq, @L); }\n", "    x_zq, "),
+    ("swzbare", false, "void f_zq() { @L.xx; }\n", "    "),
     ("enum2", true, "enum E_zq { Z_zq, A_zq = @L, B_zq };\nstatic const int g_zq = (int)B_zq;\n", "A_zq = "),
 ];
 
@@ -394,7 +405,7 @@ fn extract(ctx: &str, text: &str) -> Option<String> {
             let t = after("    return ")?.trim().strip_suffix(';')?.to_string();
             Some(t.strip_prefix("(int)").unwrap_or(&t).to_string())
         }
-        "swz" => {
+        "swz" | "swzbare" => {
             let i = lines.iter().position(|l| l.contains("f_zq("))?;
             let l = lines.get(i + 1)?.trim().strip_suffix(';')?;
             // HLSL keeps the swizzle of a scalar, Metal writes the vector constructor
@@ -404,9 +415,9 @@ fn extract(ctx: &str, text: &str) -> Option<String> {
             }
         }
         _ => {
-            let needle = template_of(ctx)?.3;
-            // Metal spells the thread group size of an entry point `[[max_total_threads_per_threadgroup(x * y * z)]]`
-            let rest = if ctx == "pattr" { after(needle).or_else(|| after("per_threadgroup(")) } else { after(needle) };
+            // alternatives separated by `|`: Metal spells the thread group size of an entry point
+            // `[[max_total_threads_per_threadgroup(x * y * z)]]` and a groupshared array as a reference parameter
+            let rest = template_of(ctx)?.3.split('|').find_map(|n| after(n));
             literal_prefix(&rest?)
         }
     }
@@ -476,6 +487,9 @@ pub fn run_emit(field: &str, lit: &str, hist: &mut Hist) -> (String, String) {
         Ok(Ok(ps)) => {
             let text: String = ps.iter().map(|p| String::from_utf8_lossy(&p.data).to_string()).collect();
             hist.add("emit.compiled");
+            if std::env::var_os("C10_SHOW_OUTPUT").is_some() {
+                eprintln!("{}", text);
+            }
             match extract(ctx, &text) {
                 None => (one_line(&text), "FAIL:emit the literal's statement was not found in the output".into()),
                 Some(printed) => {
